@@ -6,6 +6,7 @@
 -/
 import SkModel.Seeker
 import SkModel.Store
+import SkModel.NameRx
 
 namespace Sk.Py
 
@@ -72,6 +73,28 @@ def dictSetV (d : List (Val × Nat)) (v : Val) (i : Nat) : List (Val × Nat) :=
   if dictHasV d v then d.map (fun p => if p.1 == v then (v, i) else p) else d ++ [(v, i)]
 /-- `l[-1]` of a non-empty list (`IndexError` on an empty one is outside the fragment) -/
 def listLast (l : List Nat) : Nat := l.getLastD 0
+
+/-! ### the three regular expressions of `logrotate_log_sort`, as `re.compile(p).match(name)`:
+    `none` = no match, `some none` = a match without groups, `some (some n)` = a match whose
+    `int(group(1))` is `n`.  Their meaning is the hand-written `SkModel.NameRx` (compared with
+    Python's `re` on every generated name by C09's check). -/
+
+/-- `\S+\.log$` -/
+def rxLive (s : List Char) : Option (Option Nat) :=
+  let body := stripFinalNL s
+  if allNonSpace body && endsWith dotLog body && body.length ≥ 5 then some none else none
+
+/-- `\S+\.log\.(\d+)$` -/
+def rxRot (s : List Char) : Option (Option Nat) := (rxLogN (stripFinalNL s)).map some
+
+/-- `\S+\.log\.(\d+)\.gz?$` -/
+def rxRotGz (s : List Char) : Option (Option Nat) :=
+  let body := stripFinalNL s
+  let tryStrip (suf : List Char) : Option Nat :=
+    if endsWith suf body then rxLogN (body.take (body.length - suf.length)) else none
+  match tryStrip ['.', 'g', 'z'] with
+  | some n => some (some n)
+  | none => (tryStrip ['.', 'g']).map some
 
 /-- Python `//` (floor division) -/
 def floordiv (a b : Int) : Int := Int.fdiv a b
